@@ -24,15 +24,15 @@ import (
 const marker = 0xEE
 
 type pipeline struct {
-	id      int
-	pt      []byte
-	cipher  enc.Cipher
-	key     string
-	out     []byte
-	encErr  error
-	decErr  error
-	endErr  error
-	done    bool
+	id     int
+	pt     []byte
+	cipher enc.Cipher
+	key    string
+	out    []byte
+	encErr error
+	decErr error
+	endErr error
+	done   bool
 }
 
 var runs int
@@ -214,5 +214,5 @@ func body(s *simrt.Sim, tier string) {
 
 func TestWorker(t *testing.T) {
 	debug.SetGCPercent(-1)
-	common.Main(t, common.Harness{ID: "C08", NoDelays: true, MaxSteps: 400000, Body: body})
+	common.Main(t, common.Harness{ID: "C08", NoDelays: true, MaxSteps: 400000, SeedCrypto: true, Body: body})
 }
